@@ -47,6 +47,10 @@ def static_order(
 
         To avoid memoization, you can make use of [`itertypes`][typelib.graph.itertypes].
     """
+    # A string reference means something different to each calling module,
+    #   so it is resolved on behalf of the caller before the memoized lookup.
+    if isinstance(t, str):
+        t = refs.forwardref(t)
     # The memoized sequence is shared, hand out a copy the caller is free to mutate.
     return [*_static_order(t)]
 
